@@ -89,32 +89,34 @@ Section AnyN.
     run_takes (tree_glwe_rotate_assign fam n res) (0, glwe_rotate_tmp_bytes fam n) <> None.
   Proof using Hf Hn. unfold tree_glwe_rotate_assign, t_vec_znx_rotate_assign, take_words. apply need_loop_take. autounfold with c12gen. lia. Qed.
 
-  (* LWE: the formula adds the raw size of the one-coefficient plaintext (8 * size bytes) to the normalisation
-     scratch, but the second take is re-aligned to 64 bytes: exactly the limb counts that are multiples of 8 work *)
-  Lemma lwe_tree_iff (b1 b2 sz : Z) : 0 <= sz -> 0 <= n -> b1 = 8 * sz + 24 * n ->
-    run_takes (Seq (Need b1) (Seq (Take (8 * sz)) (Scoped (Take (24 * n / 8 * 8))))) (0, b1) <> None <-> (n = 0 \/ sz mod 8 = 0).
+  (* LWE: one-coefficient plaintext (8 * size bytes), then the 64-aligned normalisation scratch; the formula rounds the
+     first level up to DEFAULTALIGN (fix d19ca82; before it the call failed whenever size was not a multiple of 8) *)
+  Lemma lwe_tree_ok (b1 sz : Z) : 0 <= sz -> b1 = next_multiple_of (8 * sz) 64 + 24 * n ->
+    run_takes (Seq (Need b1) (Seq (Take (8 * sz)) (Scoped (Take (24 * n / 8 * 8))))) (0, b1) <> None.
   Proof using Hf Hn.
-    intros Hs Hn' ->. rewrite <- fail_kind_run_takes. cbn [fail_kind run_tree]. unfold avail; cbn [fst snd]. change (pad_of 0) with 0.
-    destruct (Z.leb_spec (8 * sz + 24 * n) (Z.max 0 (8 * sz + 24 * n - 0))); [|lia].
+    intros Hs ->. unfold next_multiple_of. rewrite <- fail_kind_run_takes. cbn [fail_kind run_tree]. unfold avail; cbn [fst snd]. change (pad_of 0) with 0.
+    set (B := (8 * sz + 64 - 1) / 64 * 64 + 24 * n).
+    assert (HB : 8 * sz + 24 * n <= B) by (unfold B; lia).
+    destruct (Z.leb_spec B (Z.max 0 (B - 0))); [|lia].
     unfold take, avail; cbn [fst snd]. change (pad_of 0) with 0.
-    destruct (Z.leb_spec (8 * sz) (Z.max 0 (8 * sz + 24 * n - 0))); [|lia].
+    destruct (Z.leb_spec (8 * sz) (Z.max 0 (B - 0))); [|lia].
     cbn [fst snd]. unfold pad_of, ALIGN.
-    match goal with |- context [?a <=? ?b] => destruct (Z.leb_spec a b) end; split; intros; try lia; try discriminate.
+    match goal with |- context [?a <=? ?b] => destruct (Z.leb_spec a b) end; [reflexivity|]. unfold B in *. lia.
   Qed.
 
-  Lemma suffices_lwe_encrypt_sk_iff (lwe : infos) : 0 <= i_size lwe ->
-    run_takes (tree_lwe_encrypt_sk fam n lwe) (0, lwe_encrypt_sk_tmp_bytes fam n lwe) <> None <-> (n = 0 \/ i_size lwe mod 8 = 0).
+  Lemma suffices_lwe_encrypt_sk (lwe : infos) : 0 <= i_size lwe ->
+    run_takes (tree_lwe_encrypt_sk fam n lwe) (0, lwe_encrypt_sk_tmp_bytes fam n lwe) <> None.
   Proof using Hf Hn.
-    intros Hs. unfold tree_lwe_encrypt_sk, t_vec_znx_normalize, take_words. autounfold with c12gen. cbv zeta.
+    intros Hs. unfold tree_lwe_encrypt_sk, t_vec_znx_normalize, take_words. autounfold with c12gen. cbv zeta. unfold gen_DEFAULTALIGN.
     replace (1 * 1 * i_size lwe * 8) with (8 * i_size lwe) by lia. replace (3 * n * 8) with (24 * n) by lia.
-    apply lwe_tree_iff; auto; lia.
+    apply lwe_tree_ok; auto.
   Qed.
-  Lemma suffices_lwe_decrypt_iff (lwe : infos) : 0 <= i_size lwe ->
-    run_takes (tree_lwe_decrypt fam n lwe) (0, lwe_decrypt_tmp_bytes fam n lwe) <> None <-> (n = 0 \/ i_size lwe mod 8 = 0).
+  Lemma suffices_lwe_decrypt (lwe : infos) : 0 <= i_size lwe ->
+    run_takes (tree_lwe_decrypt fam n lwe) (0, lwe_decrypt_tmp_bytes fam n lwe) <> None.
   Proof using Hf Hn.
-    intros Hs. unfold tree_lwe_decrypt, t_vec_znx_normalize, take_words. autounfold with c12gen. cbv zeta.
+    intros Hs. unfold tree_lwe_decrypt, t_vec_znx_normalize, take_words. autounfold with c12gen. cbv zeta. unfold gen_DEFAULTALIGN.
     replace (1 * 1 * i_size lwe * 8) with (8 * i_size lwe) by lia. replace (3 * n * 8) with (24 * n) by lia.
-    apply lwe_tree_iff; auto; lia.
+    apply lwe_tree_ok; auto.
   Qed.
 End AnyN.
 
@@ -207,20 +209,6 @@ Section Aligned.
 End Aligned.
 
 (* ---- refutations (witnesses replayed on the implementation by the harness) *)
-Lemma suffices_lwe_encrypt_sk_refuted :
-  exists fam n lwe, is_fam fam /\ pow2 n /\ 8 <= n /\ 0 <= i_size lwe /\
-    run_takes (tree_lwe_encrypt_sk fam n lwe) (0, lwe_encrypt_sk_tmp_bytes fam n lwe) = None.
-Proof.
-  exists 0, 8, (mkInfos 7 17 1 0 0 0 1).
-  split; [left; reflexivity|]. split; [exists 3; split; [lia|reflexivity]|]. split; [lia|]. split; [cbn; lia|]. vm_compute; reflexivity.
-Qed.
-Lemma suffices_lwe_decrypt_refuted :
-  exists fam n lwe, is_fam fam /\ pow2 n /\ 8 <= n /\ 0 <= i_size lwe /\
-    run_takes (tree_lwe_decrypt fam n lwe) (0, lwe_decrypt_tmp_bytes fam n lwe) = None.
-Proof.
-  exists 0, 8, (mkInfos 7 17 1 0 0 0 1).
-  split; [left; reflexivity|]. split; [exists 3; split; [lia|reflexivity]|]. split; [lia|]. split; [cbn; lia|]. vm_compute; reflexivity.
-Qed.
 Lemma suffices_glwe_decrypt_refuted :
   exists fam n glwe, is_fam fam /\ pow2 n /\ 8 <= n /\ 1 <= i_size glwe /\ 1 <= i_rank glwe /\
     run_takes (tree_glwe_decrypt fam n glwe) (0, glwe_decrypt_tmp_bytes fam n glwe) = None.
